@@ -48,8 +48,9 @@ type vkPlug struct {
 	idx      int
 	mu       *sync.Mutex
 	prepared *time.Duration
-	last     *time.Duration   // instant of the most recent Prepare of this interface (re-initialisations included)
-	all      *[]time.Duration // every Prepare instant of the run (any interface)
+	last     *time.Duration       // instant of the most recent Prepare of this interface (re-initialisations included)
+	all      *[]time.Duration     // every Prepare instant of the run (any interface)
+	delay    func() time.Duration // how long a lookup of addresses or routes takes right now (a slow netlink dump while requests overlap)
 	w        func() time.Duration
 }
 
@@ -74,7 +75,15 @@ func (p *vkPlug) Prepare(ifi *net.Interface) error {
 		}
 		return *p.st
 	}
+	slow := func() {
+		if p.delay != nil {
+			if d := p.delay(); d > 0 {
+				time.Sleep(d)
+			}
+		}
+	}
 	addrs := func() ([]system.IP, error) {
+		slow()
 		st := state()
 		if st.AddrErr {
 			return nil, fmt.Errorf("verif: injected address source failure")
@@ -82,6 +91,7 @@ func (p *vkPlug) Prepare(ifi *net.Interface) error {
 		return stFor(st, p.idx).Addrs, nil
 	}
 	routes := func() ([]system.Route, error) {
+		slow()
 		st := state()
 		if st.RouteErr {
 			return nil, fmt.Errorf("verif: injected route source failure")
@@ -193,7 +203,7 @@ func c17Prop(t *testing.T, k *verifkit.Kit) func(c c17Case) error {
 				prepared[ifi.Name] = &p
 				lastPrep[ifi.Name] = &lp
 				for j := range ifi.Plugins {
-					ifi.Plugins[j] = &vkPlug{Plugin: ifi.Plugins[j], st: &st, idx: i, mu: &mu, prepared: prepared[ifi.Name], last: lastPrep[ifi.Name], all: &allPrep, w: w.now,
+					ifi.Plugins[j] = &vkPlug{Plugin: ifi.Plugins[j], st: &st, idx: i, mu: &mu, prepared: prepared[ifi.Name], last: lastPrep[ifi.Name], all: &allPrep, w: w.now, delay: func() time.Duration { w.mu.Lock(); defer w.mu.Unlock(); return w.stDelay },
 						cur: func() sysState { s, _ := c17StateAt(c, w.now()); return s }}
 				}
 				w.fwd[ifi.Name] = st.Fwd
